@@ -253,7 +253,7 @@ Proof.
   destruct (negb _); [discriminate|].
   destruct (loop (joined_step cx (cs_insts s) (cs_cabs s)) false [] jargs) as [w|] eqn:J; [|discriminate].
   destruct (loop net_step false tt rest); [|discriminate].
-  destruct (_ || _); [discriminate|].
+  destruct (big_index _ _); [discriminate|].
   destruct (read_net (cs_cabs s) (nm_ident n, nm_name n, w)) as [c'|] eqn:R; [|discriminate].
   inversion H; subst. apply joined_ok in J as (J1 & J2 & J3).
   apply read_net_inv in R as [R1 R2]; auto.
